@@ -2,8 +2,23 @@ import Tahoe.Identity.Lemmas
 /-! C43 — node and capability identity is consistent (property theorems; model in
     `Tahoe/Identity/Model.lean`, helper lemmas in `Tahoe/Identity/Lemmas.lean`).
 
-    The theorems are about `Variant.fixed` (the code with fixes/C43-*.diff applied); the
-    `shipped_*_counterexample` theorems exhibit the three defects of the code as shipped. -/
+    ## Coverage of the statement
+
+    | clause of the statement (properties.jsonl) | theorem(s) |
+    |---|---|
+    | two file or directory **node** objects compare equal exactly when their capability strings are equal | `eq_iff_same_string` (node/node case: all 5 node classes × 5, incl. cross-class), `cross_class_unequal`, `eq_reflexive`, `eq_symmetric`, `eq_transitive` |
+    | two **capability** objects compare equal exactly when their capability strings are equal | `eq_iff_same_string` (cap/cap case: the 18 `_BaseURI` subclasses and `UnknownURI`, incl. cross-class; prefix-freeness of the class prefixes is proved from the extracted constants: `Identity/Lemmas.lean toString_inj`) |
+    | inequality is always the negation of equality | `ne_is_not_eq` — for *every* pair of objects (same class, cross class, node vs cap, unrelated `object`s), through the full operator protocol (`NotImplemented`, reflected call, identity fallback); `eqMethod_total` shows why `not self.__eq__(x)` and `not (self == x)` coincide for the code as it is |
+    | equal objects hash equally | `eq_implies_hash_eq` (every interpretation of CPython's hash functions), `hash_depends_only_on_class_and_caps` |
+    | (quantifier) every cap kind wrapped in every node class | the theorems quantify over all `Obj`; which (class, cap kind) combinations exist is `WF`; `uri_classes_pinned`, `prefixes_pinned`, `dunder_owners_pinned` tie the class list, the prefixes and the method owners to the source |
+    | independence of what was done to the objects before (lazy caches; seeded change C43-b) | by construction: the model is a pure function of (class, id, strings); the *implementation* side of this is correspondence + monitor only (usage states in harness/props/c43.py) |
+
+    Not covered by a theorem: that `to_string()` of a cap is a function of its fields and vice versa (C15's
+    subject; here a cap *is* its string), `CiphertextFileNode`/`ProhibitedNode` (outside the model), and
+    hashability of `UnknownNode` (it is unhashable; `eq_implies_hash_eq` is about `hash()` results incl. "raises").
+
+    The theorems are about `Variant.fixed` = the code in /repo (the three C43 fixes are committed); the
+    `shipped_*_counterexample` theorems document the three defects of the originally shipped code. -/
 namespace Tahoe.C43
 open Tahoe.Identity Tahoe.Generated
 
@@ -66,6 +81,64 @@ example : pyEq .fixed (.mutNode 1 ⟨.ssk, [97]⟩) (.mutNode 2 ⟨.ssk, [97]⟩
     ∧ hashMethod .fixed (.mutNode 1 ⟨.ssk, [97]⟩) = hashMethod .fixed (.mutNode 2 ⟨.ssk, [97]⟩) := by
   refine ⟨by decide, ?_, by decide⟩
   intro h; simp [Obj.id] at h
+
+/-- `a == a` for every object. -/
+theorem eq_reflexive (a : Obj) : pyEq .fixed a a = true := by
+  cases a <;> simp [pyEq, eqMethod, objectEq, R.ofBool, uriStrEq]
+
+example : pyEq .fixed (.unknownNode 3 none (some [1])) (.unknownNode 3 none (some [1])) = true := by decide
+
+/-- `==` is transitive (with `eq_reflexive`, `eq_symmetric`: an equivalence relation on live objects). -/
+theorem eq_transitive (a b c : Obj) (hab : IdConsistent a b) (hbc : IdConsistent b c)
+    (h1 : pyEq .fixed a b = true) (h2 : pyEq .fixed b c = true) : pyEq .fixed a c = true :=
+  pyEq_trans a b c hab hbc h1 h2
+
+example : pyEq .fixed (.litNode 1 ⟨.lit, [7]⟩) (.litNode 2 ⟨.lit, [7]⟩) = true
+    ∧ pyEq .fixed (.litNode 2 ⟨.lit, [7]⟩) (.litNode 3 ⟨.lit, [7]⟩) = true
+    ∧ pyEq .fixed (.litNode 1 ⟨.lit, [7]⟩) (.litNode 3 ⟨.lit, [7]⟩) = true := by decide
+
+/-- No comparison method of a cap or node class answers `NotImplemented`: `==`/`!=` never reach the reflected
+    call or the identity fallback when the left operand is a cap or a node, and `not self.__eq__(x)` (which would
+    turn a truthy `NotImplemented` into `False`) coincides with `not (self == x)`. -/
+theorem eqMethod_total (a b : Obj) (h : a.isCap = true ∨ a.isNode = true) :
+    eqMethod .fixed a b ≠ .ni ∧ neMethod .fixed a b ≠ .ni := by
+  cases a <;> simp [Obj.isCap, Obj.isNode] at h <;> cases b <;>
+    simp [eqMethod, neMethod, R.ofBool] <;> (repeat' split) <;> simp
+
+example : eqMethod .fixed (.other 1) (.dirNode 2 ⟨.dir2, []⟩) = .ni
+    ∧ eqMethod .fixed (.dirNode 2 ⟨.dir2, []⟩) (.other 1) = .f
+    ∧ pyNe .fixed (.dirNode 2 ⟨.dir2, []⟩) (.other 1) = true ∧ pyNe .fixed (.other 1) (.dirNode 2 ⟨.dir2, []⟩) = true := by decide
+
+/-- Objects of different model classes are never equal and always unequal — nodes of different classes, an
+    `UnknownURI` and a parsed cap (for two parsed caps of different classes see `cross_kind_caps_unequal`), a node and a cap, or either and an unrelated object (in both operand orders). -/
+theorem cross_class_unequal (a b : Obj) (hid : IdConsistent a b) (hc : a.ctorIdx ≠ b.ctorIdx) :
+    pyEq .fixed a b = false ∧ pyNe .fixed a b = true := by
+  rw [ne_is_not_eq]
+  suffices h : pyEq .fixed a b = false by simp [h]
+  cases a <;> cases b <;>
+    simp_all [pyEq, eqMethod, objectEq, Obj.id, IdConsistent, Obj.ctorIdx]
+
+example : pyEq .fixed (.dirNode 1 ⟨.dir2Chk, [97]⟩) (.immNode 2 ⟨.chk, [97]⟩) = false
+    ∧ pyNe .fixed (.mutNode 1 ⟨.ssk, [97]⟩) (.uri 2 ⟨.ssk, [97]⟩) = true := by decide
+
+/-- caps of different classes have different strings, hence are unequal (no class prefix is a prefix of another) -/
+theorem cross_kind_caps_unequal (i j : Nat) (u v : Uri) (hk : u.kind ≠ v.kind) :
+    pyEq .fixed (.uri i u) (.uri j v) = false ∧ u.toString ≠ v.toString := by
+  have : u.toString ≠ v.toString := fun h => hk (congrArg Uri.kind (toString_inj u v h))
+  simp [pyEq, eqMethod, R.ofBool, uriStrEq, this]
+
+example : pyEq .fixed (.uri 1 ⟨.dir2, [97]⟩) (.uri 2 ⟨.dir2Ro, [97]⟩) = false := by decide
+
+/-- `hash()` is a function of the class and the capability strings: two objects of the same cap/node class with
+    the same strings hash alike, whatever their identity. -/
+theorem hash_depends_only_on_class_and_caps (a b : Obj) (hc : a.ctorIdx = b.ctorIdx)
+    (hn : a.isCap = true ∨ a.isNode = true) (hs : caps a = caps b) :
+    hashMethod .fixed a = hashMethod .fixed b := by
+  cases a <;> cases b <;> simp_all [Obj.ctorIdx, Obj.isCap, Obj.isNode, caps, hashMethod] <;>
+    (try (have := toString_inj _ _ hs; simp_all))
+
+example : hashMethod .fixed (.dirNode 1 ⟨.dir2, [5]⟩) = hashMethod .fixed (.dirNode 9 ⟨.dir2, [5]⟩)
+    ∧ hashMethod .fixed (.dirNode 1 ⟨.dir2, [5]⟩) ≠ hashMethod .fixed (.mutNode 1 ⟨.dir2, [5]⟩) := by decide
 
 /-! ### the code as shipped: concrete counterexamples (each is one of the findings reproduced on the
     real objects by harness/props/c43.py) -/
